@@ -44,7 +44,6 @@ class MemoryAccess:
                         self.server.parse_dm14(priority, pgn, sa, timestamp, data)
                         if not self.seed_security:
                             self.state = DMState.WAIT_RESPONSE
-                            self._ca.unsubscribe(self._listen_for_dm14)
                             if self._proceed_function is not None:
                                 self.proceed = self._proceed_function(
                                     self.server.command,
@@ -62,6 +61,8 @@ class MemoryAccess:
                                     0x0,  # placeholder for seed
                                 )  # call proceed function and pass in basic parameters
                                 if self.proceed:
+                                    # (respond() subscribes again; a refused request must not leave us deaf)
+                                    self._ca.unsubscribe(self._listen_for_dm14)
                                     self._notify_query_received()  # notify incoming request
                                 else:
                                     self.server.error = 0x100
